@@ -4,6 +4,7 @@
 From Coq Require Import List ZArith Bool.
 Import ListNotations.
 Require Export BS.C01.Corr.
+Require Import BS.C04.Strategy.
 Local Open Scope Z_scope.
 
 Record case := mkCase { cprog : list node; cruns : list (obs * Z) }.
@@ -17,4 +18,8 @@ Definition ok (c : case) : bool :=
   forallb (fun run => ok_with r (cprog c) (fst run)) (cruns c) && counters_agree (map snd (cruns c)).
 
 Definition violations (cs : list case) : list nat := bad_indices ok cs.
-Definition mismatches (cs : list case) : list nat := violations cs.
+(* model vs implementation: besides the verdict, every program the implementation ran must satisfy
+   the hypothesis [wf_prog] of the refinement theorems (C04_run_refines_ref, C04_strategies_agree),
+   so that those theorems are about the programs that are actually exercised *)
+Definition mismatches (cs : list case) : list nat :=
+  bad_indices (fun c => ok c && wf_prog (cprog c)) cs.
